@@ -167,7 +167,8 @@ Fixpoint ccheck_stmt (K : option ctx) (G : env) (st : astmt ann) {struct st} : o
   | ASIf _ c ift iff =>
       if ccheck_expr K G c then
         match ccheck_block K G ift, ccheck_block K G iff with
-        | Some G1, Some G2 => Some (cmerge G1 G2)
+        | Some G1, Some G2 =>
+            Some (if blk_ret ift then G2 else if blk_ret iff then G1 else cmerge G1 G2)
         | _, _ => None
         end
       else None
@@ -258,7 +259,8 @@ Fixpoint prune_s (K : option ctx) (G : env) (st : astmt ann) {struct st} : astmt
       let '(body', Gb) := prune_b K G body in (ASIf1 ph (prune_e K G c) body', cmerge Gb G)
   | ASIf ph c ift iff =>
       let '(t', G1) := prune_b K G ift in
-      let '(f', G2) := prune_b K G iff in (ASIf ph (prune_e K G c) t' f', cmerge G1 G2)
+      let '(f', G2) := prune_b K G iff in
+      (ASIf ph (prune_e K G c) t' f', if blk_ret ift then G2 else if blk_ret iff then G1 else cmerge G1 G2)
   | ASWhile ph c body =>
       let Gh := env_remove_all G (map fst ph) in
       let '(body', _) := prune_b K Gh body in (ASWhile ph (prune_e K Gh c) body', Gh)
